@@ -1,13 +1,16 @@
 #!/bin/bash
 # Runs every registered check of one tier and prints one summary line per property.
 # usage: tools/run_all.sh quick|thorough [extra simcheck flags]
+# Full output of each check: $RUNALL_LOGS/<id>.log (default /tmp/runall-<seed>)
 cd "$(dirname "$0")/.." || exit 2
 tier=${1:-quick}; shift
+logs=${RUNALL_LOGS:-/tmp/runall-${VERIF_SEED:-default}}
+mkdir -p "$logs"
 rc=0
 for p in $(python3 -c "import json;print(' '.join(c['property_id'] for c in json.load(open('MANIFEST.json'))['checks']))"); do
-  out=$(./simcheck run "$p" --tier "$tier" "$@" 2>&1); e=$?
-  echo "$out" | grep -E "^VIOLATION|^KNOWN-FINDING" | cut -c1-160
-  echo "$out" | tail -1
+  ./simcheck run "$p" --tier "$tier" "$@" > "$logs/$p.log" 2>&1; e=$?
+  grep -E "^VIOLATION|^KNOWN-FINDING" "$logs/$p.log" | cut -c1-160 | head -8
+  tail -1 "$logs/$p.log"
   echo "== $p exit=$e"
   [ $e -ne 0 ] && rc=1
 done
